@@ -206,6 +206,15 @@ fn json_path_resolves(msg: &str, payload: &Doc, ev: &Event) -> Result<(), String
 
 pub fn run_c14(e: &Engine) -> i32 {
     let rec = Recorder::new("C14", e.tier);
+    let ks = first_report_pass(e, &rec, "C14");
+    direct_sweep(&rec);
+    rec.set_extra("error_kinds_seen_(error type:kind:depth)", json!(ks));
+    finish_c14(&rec)
+}
+
+/// The built-in always-stop error types against the keep-going run: they fail iff it reports
+/// something, and what they return describes its *first* report (C14; also the last clause of C03).
+pub fn first_report_pass(e: &Engine, rec: &Recorder, prop: &str) -> Vec<String> {
     let roots: Vec<usize> = (0..e.cat.roots.len()).filter(|i| e.entries[*i].run_json.is_some()).collect();
     rec.set_extra("types", json!(roots.len()));
     let next = AtomicUsize::new(0);
@@ -224,7 +233,23 @@ pub fn run_c14(e: &Engine) -> i32 {
                     let entry = &e.entries[ri];
                     let tystr = ty_str(&root.ty, e.cat);
                     let subject = format!("{tystr} [{}: {}]", root.group, root.note);
-                    let (docs, tr) = e.payloads(&root.ty, &rec, &subject);
+                    let (mut docs, tr) = e.payloads(&root.ty, &rec, &subject);
+                    // floats whose text differs between renderings (integral values, exponents,
+                    // negative zero, many digits) at every leaf of the first bases
+                    {
+                        let g = crate::space::Gen::new(e.cat);
+                        for b in g.bases(&root.ty).into_iter().take(2) {
+                            let mut ls = vec![];
+                            leaf_positions(&b, &mut vec![], &mut ls);
+                            for l in ls.iter().take(12) {
+                                for f in [2.0f64, -0.0, 1e21, 1e-7, -1.0e300, 0.1 + 0.2, 255.0, 16777217.0] {
+                                    let mut d = b.clone();
+                                    *d.resolve_mut(l).unwrap() = Doc::Float(f);
+                                    docs.push(d);
+                                }
+                            }
+                        }
+                    }
                     let mut states = 0u64;
                     let mut execs = 0u64;
                     let mut sigs: HashSet<u64> = HashSet::new();
@@ -254,7 +279,7 @@ pub fn run_c14(e: &Engine) -> i32 {
                         states += 1;
                         for (query, run) in [(false, entry.run_json.unwrap()), (true, entry.run_query.unwrap())] {
                             begin(&Script::keep_going());
-                            let r = std::panic::catch_unwind(|| run(doc));
+                            let r = std::panic::catch_unwind(|| run(Src::Json, doc));
                             let _ = end();
                             execs += 1;
                             let Ok(r) = r else { continue };
@@ -291,7 +316,7 @@ pub fn run_c14(e: &Engine) -> i32 {
                             };
                             if let Some(m) = err {
                                 rec.violation(Violation {
-                                    property: "C14".into(),
+                                    property: prop.into(),
                                     subject: subject.clone(),
                                     message: format!("{} {m}\n  payload: {}", if query { "QueryParamError" } else { "JsonError" }, doc.text()),
                                     replay: json!({"kind": "message", "root": ri, "type": tystr, "query": query, "payload": doc_to_tagged(doc)}),
@@ -314,10 +339,32 @@ pub fn run_c14(e: &Engine) -> i32 {
             });
         }
     });
-    direct_sweep(&rec);
     let mut ks: Vec<String> = kinds_seen.into_inner().unwrap().into_iter().collect();
     ks.sort();
-    rec.set_extra("error_kinds_seen_(error type:kind:depth)", json!(ks));
+    ks
+}
+
+fn leaf_positions(d: &Doc, cur: &mut Loc, out: &mut Vec<Loc>) {
+    match d {
+        Doc::Obj(m) => {
+            for (k, v) in m {
+                cur.push(Step::Key(k.clone()));
+                leaf_positions(v, cur, out);
+                cur.pop();
+            }
+        }
+        Doc::Seq(v) => {
+            for (i, x) in v.iter().enumerate() {
+                cur.push(Step::Index(i));
+                leaf_positions(x, cur, out);
+                cur.pop();
+            }
+        }
+        _ => out.push(cur.clone()),
+    }
+}
+
+fn finish_c14(rec: &Recorder) -> i32 {
     rec.finish(
         "model_checking",
         "states = (catalogue type usable with any error type, payload) from the fault closure and all small documents, restricted to keys over [A-Za-z_] and string leaves without backticks. Per state: one keep-going run with the recording error type gives the first report r; the real JsonError and QueryParamError runs must fail iff r exists, and their message must equal the independent rendering of r: path rendered from the root (absent at the root; query parameters without the leading dot), the offending value as JSON text, kinds phrase (C17 spec), missing field / unknown key / unknown value with every accepted alternative in order, a did-you-mean clause iff the C18 spec yields one, received and expected lengths, the detail message verbatim. For JsonError the path read back from the message is resolved in the payload and must hold the quoted value. distinct = distinct messages.",
